@@ -13,6 +13,7 @@ import (
 	"github.com/bradenaw/juniper/xtime"
 	"pgregory.net/rapid"
 
+	"verif/harness/sk"
 	"verif/harness/vk"
 )
 
@@ -98,7 +99,7 @@ func runSleep(p SleepPlan) (vk.Outcome, error) {
 		hasDeadline, cancelAt := false, int64(-1)
 		if p.Ctx == "expired-deadline" { // the deadline passed before the call
 			var c context.CancelFunc
-			ctx, c = context.WithTimeout(ctx, -time.Second)
+			ctx, c = sk.WithTimeout(ctx, -time.Second)
 			cancels = append(cancels, c)
 			hasDeadline = true
 			p.Deadline = -int64(time.Second)
@@ -114,18 +115,18 @@ func runSleep(p SleepPlan) (vk.Outcome, error) {
 		switch p.Ctx {
 		case "deadline", "deadline+cancel", "cancelled+deadline":
 			var c context.CancelFunc
-			ctx, c = context.WithTimeout(ctx, time.Duration(p.Deadline))
+			ctx, c = sk.WithTimeout(ctx, time.Duration(p.Deadline))
 			cancels = append(cancels, c)
 			hasDeadline = true
 		}
 		switch p.Ctx {
 		case "cancelled", "cancelled+deadline":
 			var c context.CancelFunc
-			ctx, c = context.WithCancel(ctx)
+			ctx, c = sk.WithCancel(ctx)
 			c()
 		case "cancel-at", "deadline+cancel":
 			var c context.CancelFunc
-			ctx, c = context.WithCancel(ctx)
+			ctx, c = sk.WithCancel(ctx)
 			cancels = append(cancels, c)
 			cancelAt = p.CancelAt
 			quit := make(chan struct{})
@@ -243,7 +244,7 @@ type TickerPlan struct {
 
 func genDJ(t *rapid.T, label string) (int64, int64) {
 	// (1<<62 + 5: with jitter d-1 twice the jitter no longer fits a Duration; the fake clock can still carry one such period)
-	d := rapid.SampledFrom([]int64{1, 2, 1000, int64(time.Millisecond), int64(time.Second), int64(time.Hour), 1 << 60, 1<<62 + 5}).Draw(t, label+"d")
+	d := rapid.SampledFrom([]int64{1, 2, 1000, int64(time.Millisecond), int64(time.Second), int64(time.Hour), 1 << 60, 1<<62 + 5, 1<<62 + 1<<61, math.MaxInt64}).Draw(t, label+"d") // the last two: d + jitter no longer fits either
 	var j int64
 	switch rapid.IntRange(0, 4).Draw(t, label+"jclass") {
 	case 0:
@@ -266,7 +267,10 @@ func genDJ(t *rapid.T, label string) (int64, int64) {
 	case 2:
 		j = d
 	case 3:
-		j = d + 5
+		j = d
+		if d < math.MaxInt64-5 {
+			j = d + 5
+		}
 	}
 	return d, j
 }
@@ -373,7 +377,20 @@ func runTicker(p TickerPlan) (vk.Outcome, error) {
 				default:
 				}
 			case "wait":
-				if stopped || d >= 1<<59 {
+				if stopped {
+					continue
+				}
+				if d >= 1<<59 {
+					// nobody waits decades for a tick - but a tick may not show up early either: look twice, a
+					// millisecond apart (two ticks of such a ticker that close together break the spacing rule)
+					for k := 0; k < 2 && verr == nil; k++ {
+						time.Sleep(time.Millisecond)
+						select {
+						case ts := <-tk.C:
+							got(ts)
+						default:
+						}
+					}
 					continue
 				}
 				limit := time.NewTimer(time.Duration(3*d + 10))
@@ -481,6 +498,9 @@ func runTicker(p TickerPlan) (vk.Outcome, error) {
 		tail := time.Duration(d)
 		if d < 1<<50 {
 			tail = time.Duration(100 * d)
+		}
+		if d >= 1<<61 {
+			tail = time.Hour // (the fake clock cannot carry more than one such period; an hour of silence will do)
 		}
 		time.Sleep(tail)
 		select {
